@@ -262,6 +262,10 @@ func (x *Exec) loopFrame(s *State, lh *loopHavoc, run func(d *State) *State) {
 			}
 			// a varying reference: acceptable if it provably did not exist at function entry
 			// (e.g. a slice built by this function and grown by append in the loop)
+			if x.eng.quickValid(set[r], mkCmp(">=", r, lh.preAlloc)) {
+				// allocated inside the loop: everything that existed at loop entry keeps its contents
+				continue
+			}
 			if x.eng.quickValid(set[r], mkCmp(">=", r, a0)) {
 				bound = a0
 				continue
